@@ -28,7 +28,8 @@ from contextlib import ExitStack, contextmanager
 from struct import pack, unpack, unpack_from
 
 from .ebpf import (
-    AssembleError, Expression, Opcode, Map, FuncId, ensure_expression)
+    AssembleError, Expression, FuncId, IAdd, Map, Opcode, ensure_expression,
+    fmt_to_opcode)
 from .bpf import (
     MapType, UpdateFlags, create_map, delete_elem, get_next_key, lookup_elem,
     lookup_and_delete_elem, update_elem)
@@ -44,6 +45,18 @@ class HashGlobalVar(Expression):
         self.fmt = fmt
         self.signed = fmt.islower()
         self.fixed = fmt == "x"
+
+    def __iadd__(self, value):
+        if self.fmt in "qQiIx":
+            return IAdd(self.ebpf, value)
+        else:
+            return NotImplemented
+
+    def __isub__(self, value):
+        if self.fmt in "qQiIx":
+            return IAdd(self.ebpf, -value)
+        else:
+            return NotImplemented
 
     @contextmanager
     def get_address(self, dst, long, force=False):
@@ -107,6 +120,18 @@ class HashGlobalVarDesc:
                 value = round(value * Expression.FIXED_BASE)
             update_elem(fd, pack("B", self.count),
                         pack("q" if self.fmt.islower() else "Q", value))
+            return
+        if isinstance(value, IAdd):  # an atomic addition, as for Memory
+            amount = value.value
+            if self.fmt == "x" and not amount.fixed:
+                amount = amount * Expression.FIXED_BASE
+            elif self.fmt != "x" and amount.fixed:
+                amount = amount / Expression.FIXED_BASE
+            with amount.calculate(None, self.fmt in "qQx") as (src, _):
+                with self.__get__(ebpf, None).get_address(None, True) \
+                        as (dst, _):
+                    ebpf.append(Opcode.XADD + fmt_to_opcode(self.fmt),
+                                dst, src, 0, 0)
             return
         value = ensure_expression(ebpf, value)
         if self.fmt == "x" and not value.fixed:
